@@ -1,12 +1,16 @@
-"""C31 — checked arithmetic, fee and coin-hour formulas (translator tie + translation validation)."""
+"""C31 — checked arithmetic, fee and coin-hour formulas (translator tie + translation validation).
+Also validates the translator's loop extension (translator/loops.go): the regenerated
+Gen/CoinLoops.v (OutputHours, UxArray.Coins/CoinHours, VerifyTransactionCoinsSpending /
+HoursSpending) and Gen/FeeTxn.v (fee.TransactionFee, fee.VerifyTransactionFee) against the real functions (groups l_*);
+C03/C11/C01 prove their hand models equal to these definitions."""
 import vf
 
 SPEC = {
-    "uses_gen": True,
+    "uses_gen": ["Mathutil", "Fee", "CoinHours", "Page", "Droplet", "CoinLoops", "FeeTxn"],
     "cmd": "c31",
     "budget": (400, 20000),
-    "header": "From Sky Require Import Base.Uint Model.ArithSpec.\nOpen Scope Z_scope.",
-    "gen_header": "From Sky Require Import Gen.Mathutil Gen.Fee Gen.CoinHours.",
+    "header": "From Sky Require Import Base.Uint Model.ArithSpec Model.HoursSpec.\nOpen Scope Z_scope.",
+    "gen_header": "From Sky Require Import Gen.Mathutil Gen.Fee Gen.CoinHours Gen.CoinLoops Gen.FeeTxn.",
     "corr": "C31_corr.v",
     "prop": "C31_prop.v",
     "groups": {
@@ -20,9 +24,18 @@ SPEC = {
         "remaining": ("mism_remaining", "pf_remaining"),
         "vfee": ("mism_vfee", "pf_vfee"),
         "coinhours": ("mism_coinhours", "pf_coinhours"),
+        # loops over slices (Gen/CoinLoops.v, Gen/FeeTxn.v); one shared case list
+        "l_oh": ("mism_l_oh", "pf_l_oh"),
+        "l_uxcoins": ("mism_l_uxcoins", "pf_l_uxcoins"),
+        "l_uxhours": ("mism_l_uxhours", "pf_l_uxhours"),
+        "l_vcs": ("mism_l_vcs", "pf_l_vcs"),
+        "l_vhs": ("mism_l_vhs", "pf_l_vhs"),
+        "l_txfee": ("mism_l_txfee", "pf_l_txfee"),
+        "l_vtf": ("mism_l_vtf", "pf_l_vtf"),
     },
     "trusted_base": [
-        "translator /verif/translator (Go->Gallina for mathutil, fee, UxOut.CoinHours), validated on this run against the implementation on the generated points",
+        "translator /verif/translator (Go->Gallina for mathutil, fee, UxOut.CoinHours; loops over slices of structs for Transaction.OutputHours, UxArray.Coins / CoinHours, VerifyTransactionCoinsSpending / HoursSpending, fee.TransactionFee / VerifyTransactionFee), validated on this run against the implementation on the generated points",
+        "projection of slice arguments to lists of the integer fields the function uses (named in the translator's manifest and in the comment above each Gen definition), rebuilt by the harness",
         "Go `int` is 64 bits (IntToUint32)",
         "harness printer of inputs/outputs as Coq terms; error identity = sentinel name or message prefix",
     ],
